@@ -207,6 +207,21 @@ def infer_kind(value: Any) -> Optional[Type]:
     return type(value)
 
 
+_BUILTIN_KINDS = (bool, int, float, complex, str, bytes, datetime, date, list, dict, tuple)
+
+
+def kind_of_type(cls: Type) -> Type:
+    """
+    The kind infer_kind() gives to every instance of cls: a subclass of a builtin kind
+    (an IntEnum, a str subclass) counts as that kind; any other class is its own kind.
+    (Same order as infer_kind: bool before int, datetime before date.)
+    """
+    for kind in _BUILTIN_KINDS:
+        if issubclass(cls, kind):
+            return kind
+    return cls
+
+
 def infer_dtype(values: Iterable[Any]) -> DataType:
     """
     Infer a DataType from an iterable of Python scalars.
